@@ -8,6 +8,14 @@ CLAIMS = {
    text="Static decision of the structural clauses of DiplomatWrite safety on the MIR of runtime/src/write.rs and of every macro-generated extern fn in the repo's bridges: bounded copy (every path to the copy passes the capacity test or a successful grow with the same operands), atomic failure edge, sticky flag, len advanced after the copy with needed_len, accessor gating, fixed writer reserves the NUL byte, Rust-owned grow protocol, flush-after-call, private bookkeeping fields / who-may-write. Path-exhaustive over the (loop-free) CFGs; decides these clauses for all inputs, not the behaviour under all chunk sequences.",
    note="Trusts rustc's MIR construction and the documented contract of foreign grow callbacks; C++ std::string writer template is checked by token queries only.",
    technique="MIR path enumeration + symbolic def-use terms; who-may-write inventory"),
+ "C16": dict(
+   text="Static decision, on the MIR of diplomat-runtime, that every raw-parts slice reconstruction takes (ptr,len) of one view and is reachable only through the non-null edge of that view's ptr.is_null() test (NULL+0 normalises to the empty slice; the null edge uses an element-aligned dangling pointer), that views are built field-wise from one source, that diplomat_is_str is exactly is_ok(from_utf8(from_raw_parts(ptr,size))) with no other branch or call, that from_utf8_unchecked is only applied to a validated view's bytes, that alloc/free build the same Layout, and that the view types are repr(C)/transparent with private fields. Covers all element types and lengths at once because the bodies are generic; does not run them.",
+   note="core::str::from_utf8 and rustc's slice semantics are trusted; a hand-rolled UTF-8 fast path would be reported (not decidable by shape).",
+   technique="MIR dominance / edge-cut reachability + symbolic operand terms"),
+ "C03": dict(
+   text="Static decision of the ownership-escape discipline: (R1) the inventory of unsafe ownership operations in diplomat-runtime equals a triaged table; (R2) path-sensitive typestate on MIR: after ManuallyDrop::take / ptr::read / Box::from_raw / Vec::from_raw_parts on part of a value whose drop glue releases that part, the value is not dropped on any continuing path (this found the double drop in From<DiplomatResult> for Result, repaired by a fix: commit); (R2b) Drop for DiplomatResult releases exactly the flagged arm once per path; (R3) create/destroy, into_raw/from_raw and callback-destructor pairing; (R4) in the macro output for the repo's own bridges the generated *_destroy(Box<T>){} is the only by-value consumer of an opaque; (R5) C++ operator delete / unique_ptr / heap-moved callbacks with c_delete. Decides these clauses, not arbitrary foreign call histories.",
+   note="Foreign callers are assumed to call destroy once; corpus rules (R4) speak for the bridge shapes present in feature_tests/example; C++ text is token-checked, not type-resolved.",
+   technique="who-may-call inventory + MIR typestate (take-then-drop reachability) + pairing rules"),
 }
 NOT_YET = "rule module not built yet in this round (see DESIGN.md section 4 for the planned static rules)"
 
